@@ -77,13 +77,15 @@ def run(ctx):
         ctx.violation({"mode": o["scn"]["mode"], "class": o["obs"].get("kind"), "where": o["obs"].get("where", "")},
                       "process %s while executing the schedule" % o["obs"].get("kind"), o)
     good = [o for o in obs if o["obs"].get("kind") in ("sd", "e2e")]
-    ev = flatten(good)
-    tp = ctx.write_ndjson("trace.ndjson", ev)
-    t = ctx.validate("Trace_Shutdown", "Trace_Shutdown.cfg", tp, len(ev))
     verdicts = {}
-    for r in t.lines:
-        if r.get("t") == "VERDICT":
-            verdicts.setdefault(r["id"], []).append(r)
+    CH = 2500          # runs per TLC invocation (the skip-to-next-run step of the trace spec is linear in the trace length)
+    for c in range(0, len(good), CH):
+        ev = flatten(good[c:c + CH])
+        tp = ctx.write_ndjson("trace-%d.ndjson" % (c // CH), ev)
+        t = ctx.validate("Trace_Shutdown", "Trace_Shutdown.cfg", tp, len(ev), name="trace-%d" % (c // CH), timeout=1800)
+        for r in t.lines:
+            if r.get("t") == "VERDICT":
+                verdicts.setdefault(r["id"], []).append(r)
     ctx.traces = len(good)
     drift = 0
     for o in good:
